@@ -2,7 +2,7 @@
 //   * vgrad is the derivative of value with respect to every output (generic points)
 //   * value and error of a sample depend only on that sample (batch of 2 vs the samples evaluated alone)
 //   * value >= 0 and error >= 0 (transcendental losses: only where decidable), 0-1 errors follow the sign / arg-max rule
-// config: loss=<id>;k=<outputs>;pat=<target pattern id>
+// config: loss=<id>;k=<outputs>;pat=<target pattern id>;multi=<1: single-label losses get bit patterns too (any number of positive classes)>
 #include "hcommon.h"
 #include <nano/loss.h>
 #include <nano/loss/class.h>
@@ -18,6 +18,7 @@ extern "C" void sym_body()
     SYM_CHECK(static_cast<bool>(loss), "loss id registered");
     const bool classification = lid.rfind("s-", 0) == 0 || lid.rfind("m-", 0) == 0;
     const bool single_label   = lid.rfind("s-", 0) == 0;
+    const bool one_positive   = single_label && cfgi("multi", 0) == 0; // multi=1: single-label losses on ANY class pattern (0, 2, ... positives)
 
     tensor4d_t targets(2, k, 1, 1), outputs(2, k, 1, 1);
     for (tensor_size_t s = 0; s < 2; ++s)
@@ -26,8 +27,8 @@ extern "C" void sym_body()
             if (classification)
             {
                 // sample 0: pattern `pat` (bit i set => positive), sample 1: the next pattern; single-label: one positive class
-                const long p = single_label ? ((pat + s) % k) : ((pat + s) % (1L << k));
-                targets(s, i, 0, 0) = single_label ? (i == p ? 1.0 : -1.0) : (((p >> i) & 1) ? 1.0 : -1.0);
+                const long p = one_positive ? ((pat + s) % k) : ((pat + s) % (1L << k));
+                targets(s, i, 0, 0) = one_positive ? (i == p ? 1.0 : -1.0) : (((p >> i) & 1) ? 1.0 : -1.0);
             }
             else targets(s, i, 0, 0) = sym_box(sym_nm("t", s, i), -4.0, 4.0);
             outputs(s, i, 0, 0) = sym_box(sym_nm("o", s, i), -6.0, 6.0);
